@@ -2103,6 +2103,8 @@ impl<'de, 'e> de::Deserializer<'de> for YamlDeserializer<'de, 'e> {
             merge_stack: Vec<Vec<PendingEntry<'de>>>,
             flushing_merges: bool,
             pending_value: Option<(Vec<Ev<'de>>, Location)>,
+            /// Set once the end of the mapping has been taken from the live stream.
+            ended: &'e mut bool,
         }
 
         impl<'de, 'e> MA<'de, 'e> {
@@ -2336,6 +2338,7 @@ impl<'de, 'e> de::Deserializer<'de> for YamlDeserializer<'de, 'e> {
                     match self.ev.peek()? {
                         Some(Ev::MapEnd { .. }) => {
                             let _ = self.ev.next()?; // consume end
+                            *self.ended = true;
                             if self.merge_stack.is_empty() {
                                 return Ok(None);
                             }
@@ -2588,7 +2591,8 @@ impl<'de, 'e> de::Deserializer<'de> for YamlDeserializer<'de, 'e> {
         #[cfg(any(feature = "garde", feature = "validator"))]
         let garde = self.garde;
 
-        visitor.visit_map(MA {
+        let mut ended = false;
+        let result = visitor.visit_map(MA {
             ev: self.ev,
             cfg: self.cfg,
             have_key: false,
@@ -2605,7 +2609,27 @@ impl<'de, 'e> de::Deserializer<'de> for YamlDeserializer<'de, 'e> {
             merge_stack: Vec::new(),
             flushing_merges: false,
             pending_value: None,
-        })
+            ended: &mut ended,
+        })?;
+        if !ended {
+            // The visitor returned without asking for a key until there was none (it is allowed
+            // to). As for sequences, leaving the rest unread would desynchronise the event
+            // stream: the caller would take the leftovers for the next value or document.
+            match self.ev.peek()? {
+                Some(Ev::MapEnd { .. }) => {
+                    let _ = self.ev.next()?;
+                }
+                Some(other) => {
+                    let location = other.location();
+                    return Err(
+                        Error::msg("mapping has more entries than the target type read")
+                            .with_location(location),
+                    );
+                }
+                None => {}
+            }
+        }
+        Ok(result)
     }
 
     /// **Delegates struct deserialization** to the same machinery as mappings.
